@@ -124,6 +124,20 @@ def run(ck, w):
         ck.fail(o, "<apath::Apath as std::cmp::Ord>::cmp", "anchor-missing", "comparator not found")
     else:
         fam = [cb] + [b for b in lib.family(cb.name) if b is not cb]
+        # ... and the private functions of the same file it hands the work to (a recursive `cmp_from_component(a, b)`)
+        seen_ = {b.name for b in fam}
+        work_ = list(fam)
+        while work_:
+            fb = work_.pop()
+            for n_ in sorted(rules._local_callees(lib, fb)):
+                nb_ = lib.bodies.get(n_)
+                if nb_ is not None and n_ not in seen_ and nb_.file == cb.file and nb_.kind in ("fn", "assoc_fn", "closure") and not nb_.trait \
+                        and (nb_.d.get("vis") or "").startswith("Restricted") and "is_valid" not in n_:
+                    seen_.add(n_)
+                    for x_ in lib.family(n_):
+                        if x_.name not in {y.name for y in fam}:
+                            fam.append(x_)
+                            work_.append(x_)
         n_cmp = 0
         problems = []
         comp_src = re.compile(r"<std::str::Split<'a, P> as std::iter::Iterator>::next$|<std::str::SplitN<.*> as std::iter::Iterator>::next$|std::path::Components.*Iterator>::next$")
@@ -150,8 +164,11 @@ def run(ck, w):
                         # and the remaining tail is compared only after split_once found no further '/' in it
                         so_ok = False
                         so_calls = [x for x in orig if x[0] == "call" and x[1].endswith("<impl str>::split_once")]
-                        if so_calls and all(x[0] != "call" or x[1].endswith("<impl str>::split_once") for x in orig):
-                            heads_only = all(x[3][:2] in (("as Some", "0"),) or (x[3] and x[3][-1] == "0") for x in so_calls)
+                        # (in a recursive helper the tail arrives as a parameter: `fn cmp_from(a: &str, b: &str)` compares `a` itself
+                        # only where a.split_once('/') found no '/')
+                        tail_param = not so_calls and b is not cb and orig and all(x[0] in ("param", "via") for x in orig)
+                        if (so_calls or tail_param) and all(x[0] != "call" or x[1].endswith("<impl str>::split_once") for x in orig):
+                            heads_only = bool(so_calls) and all(x[3][:2] in (("as Some", "0"),) or (x[3] and x[3][-1] == "0") for x in so_calls)
                             examined = [x2 for x2 in b.events if x2.bb in b.live and x2.name.endswith("<impl str>::split_once") and len(x2.args) > 1
                                         and x2.args[1].get("int") == "47" and flow.operand_local(x2.args[0]) is not None]
                             al = flow.operand_local(a)
